@@ -980,7 +980,10 @@ impl<K: Hash + Eq, V> std::ops::DerefMut for Guard<'_, K, V> {
 // Avoid taking a dependency on OnceCell or lazy_static or something, just for this little thing
 impl<'a, K: Hash + Eq, V> Guard<'a, K, V> {
     pub fn lock(map: &'a Mutex<Option<HashMap<K /*filename*/, V>>>) -> Guard<'a, K, V> {
-        let mut guard = map.lock().unwrap();
+        // A panic while the lock was held (an interface that is refused with a panic) must not
+        // make every later use fail. Entries are only inserted once they are complete, so the
+        // map is consistent.
+        let mut guard = map.lock().unwrap_or_else(|poisoned| poisoned.into_inner());
         if guard.is_none() {
             *guard = Some(HashMap::new());
         }
